@@ -4,7 +4,7 @@ import json
 LEVEL_TEXT = {
  "C01": "TLC validates every recorded get_utxos answer of the real canister (all pages followed) against the genesis-replay ledger of Universe.tla on random and directed histories (forks, reorgs, a transaction mined on two forks, same-block spends, OP_RETURN / non-standard / oversized scripts, all five address kinds on the three networks, prefix address pairs); sampling of histories, exhaustive comparison of every answer within them; MC_Ledger: TLC checks on every reachable state of bounded histories with transaction content (forks, same-block spends, re-mined transactions, ingestion one operation per step) that the code's mechanisms (stable set + in-progress delta + outpoints cache + per-block address deltas, Mech.tla) give exactly the reference answers",
  "C02": "MC_Tree: TLC explores every fork tree / arrival order / difficulty assignment up to the bound and checks that the served chain (mechanism) is the declarative heaviest chain; trace validation binds the code: tip, height, timestamp, difficulty of get_blockchain_info and the tips of get_utxos / get_balance / get_block_headers / fee percentiles are compared with the specification after every message; every fork tree of <= 3 blocks with difficulties {1,2,3} and <= 4 blocks with {1,3} is replayed into the real code in every arrival order (scen.enum_trees), plus TLC-simulated behaviours of MC_Tree (committed corpus)",
- "C03": "MC_Tree: exhaustive on bounded trees: finality as an action property (stable chain only grows by the old anchor along a path of the tree, blocks leave the tree only on advance), mechanism = rule as worded (mainnet), new anchor on served chain; trace validation compares stable height, header store and tree after every heartbeat, so an early, late or wrong advance of the code is a mismatch; directed scenarios near the real adaptive depth bound (many sibling tips, thorough: 420-block chains and the three-way tie), randomized stability histories and TLC-simulated behaviours are replayed into the real code",
+ "C03": "MC_Tree: exhaustive on bounded trees: finality as an action property (stable chain only grows by the old anchor along a path of the tree, blocks leave the tree only on advance), mechanism = rule as worded (mainnet), new anchor on served chain; trace validation compares stable height, header store and tree after every heartbeat, so an early, late or wrong advance of the code is a mismatch; directed scenarios at the real adaptive depth bound (many sibling tips, a 420-block chain, the three-way tie of 605 blocks, two forks of 350 / 349 blocks beyond the bound plus a heavy block), randomized stability histories and TLC-simulated behaviours are replayed into the real code",
  "C04": "MC_Tree checks the cut is defined and, on fork-free trees, at height H-c+1; trace validation compares get_utxos(min_confirmations=c) for c = 0..len+2 with the ledger as of the specification's CutBlock on forked histories; exhaustive replay of small fork trees (scen.enum_trees) incl. heavy-short vs light-long branches; MC_Ledger (thorough) checks the mechanisms against the reference for every c",
  "C05": "TLC checks on recorded executions both the relation between the two answers of the code (balance vs sum of all pages of get_utxos for the same address, filter and state; same error classes) and each of them against the reference ledger; query and update variants alternate; MC_Ledger: BalanceAgrees / UtxosAgree on every reachable state of bounded histories incl. every pause position",
  "C06": "trace validation of paginated walks interleaved with block arrivals, fork growth, stabilisation, upgrades: the specification fixes the expected set at the first page (ledger as of the named tip) and every later page must be a fresh, ordered, size-bounded part of it naming the same tip, or UnknownTipBlockHash iff the tip left the tree; arbitrary page blobs must give an explicit error or an answer",
